@@ -59,7 +59,8 @@ def run_cases(ck, res, n_cases, n_interval):
             rs = [r0] + ([r1] if kind == 'shell2' else []) + [rr() for _ in range(3)]
             nd = lambda v: v + r.choice([0.01, 0.003, 1.0 / 300.0]) if r.random() < 0.4 else v      # not float32-representable
             ths = [nd(dy(r, 0, 3.125, 4)) for _ in rs]
-            phs = [nd(dy(r, 0, 6.25, 4)) for _ in rs]
+            # longitudes in either convention ([0, 2 pi), (-pi, pi]) and beyond: f and g are the user's functions of the phi GIVEN
+            phs = [nd(dy(r, -7, 13, 4)) for _ in rs]
             R, TH, PH = enga.col(torch, rs), enga.col(torch, ths), enga.col(torch, phs)
             u = [float(v) for v in cond.enforce(net, R, TH, PH).detach().reshape(-1)]
             pv = {'r_0': r0, 'r_1': r1, 'order': k}
